@@ -104,6 +104,13 @@ func Programs() []Program {
 			for _, op := range pairAssign {
 				add("pairs:assign-op", fmt.Sprintf("fn main() { let v = %s; v %s %s; }\n", a, op, b))
 			}
+			for _, op := range pairInfix {
+				add("pairs:infix-print", fmt.Sprintf("fn main() { println(%s %s %s); }\n", a, op, b))
+			}
+			for _, op := range pairAssign {
+				add("pairs:assign-op-print", fmt.Sprintf("fn main() { let v = %s; v %s %s; println(v); }\n", a, op, b))
+			}
+			add("pairs:index-print", fmt.Sprintf("fn main() { println((%s)[%s]); }\n", a, b))
 			add("pairs:index", fmt.Sprintf("fn main() { let v = (%s)[%s]; }\n", a, b))
 			add("pairs:index-assign", fmt.Sprintf("fn main() { let v = %s; v[%s] = %s; }\n", a, b, a))
 			add("pairs:call", fmt.Sprintf("fn main() { let v = (%s)(%s); }\n", a, b))
